@@ -465,6 +465,7 @@ class Check:
         for h in self.known_hits:
             print("KNOWN-FINDING: property=%s %s" % (self.pid, h["what"]))
         if self.violations:
+            self.violations.sort(key=lambda v: not v["found"])
             for v in self.violations[:1]:
                 print("VIOLATION property=%s replay=%s%s" % (self.pid, v["replay"], "" if v["found"] else " no-failing-input-found"))
             for v in self.violations[:5]:
